@@ -765,7 +765,14 @@ where
             Some(Ok(x)) => {
                 let mut s = String::from("ok ");
                 x.show(&mut s);
-                s.push_str(&format!(" region=0 basemod=0 tailzero=true moved=true kind=0"));
+                // an owned structure wrapped by `MemCase::encase` reads the same through Deref and AsRef, also after a move
+                let shown = s[3..].to_string();
+                let c = Box::new(MemCase::encase(x));
+                let (mut s1, mut s2) = (String::new(), String::new());
+                (**c).show(&mut s1);
+                (*c).as_ref().show(&mut s2);
+                let same = s1 == shown && s2 == shown;
+                s.push_str(&format!(" region=0 basemod=0 tailzero=true moved={} kind=0", same));
                 s
             }
         },
